@@ -515,7 +515,11 @@ theorem gone_is_not_a_failure {cfg : Cfg} {s s' : State} (i : Nat) (hg : s.gone 
     split at h
     · split at h
       · rw [if_neg (by simp [hg])] at h
-        cases h
+        have hs1 : s' = { s with st := upd s.st (.sub i) .failed } := by
+          split at h
+          · rw [if_neg (by simp [hg])] at h; cases h; rfl
+          · cases h; rfl
+        subst hs1
         refine ⟨rfl, rfl, by simp, ?_⟩
         intro horch k
         simp [step, hne.1, horch]
